@@ -126,6 +126,10 @@ def cases(tier, rng):
     for t in ["+12", "-0", "+1", "1+2", "12a", "1 2", "０１２"]:
         for mode in (0, 1):
             add("acc qr 0 %d %s" % (mode, J.hx(t)))
+    # wrapped lengths, low-byte runes, signs inside numeric groups (lib/gaps.py)
+    import gaps
+    for g in gaps.acc_cases(rng, tier):
+        add("acc " + g)
     # random jobs over everything
     for j in J.jobs(rng, 300 if tier == "quick" else 20000, scale_frac=0.0):
         k = j.split()[1]
